@@ -128,8 +128,8 @@ type Owner struct {
 // Audit rows are written by the hooks of Owner when the case asks for it
 // (writes made by a hook through the handle it is given belong to the operation).
 type Audit struct {
-	ID  uint `gorm:"primaryKey"`
-	Msg string
+	ID  uint   `gorm:"primaryKey"`
+	Msg string `gorm:"uniqueIndex"` // every hook invocation writes its own messages; a repeated one fails by itself
 }
 
 var allModels = []interface{}{&Region{}, &Company{}, &Owner{}, &Profile{}, &Item{}, &Part{}, &Tag{}, &Note{}, &Badge{}, &Audit{}}
@@ -154,12 +154,25 @@ type hookPlan struct {
 	failAt   int // -1: no hook fails
 	cancelAt int // -1: no hook cancels the context of the operation
 	cancel   context.CancelFunc
-	auditVia string // "" = tx.Exec, "session" = Create through a NewDB+SkipDefaultTransaction session of tx
-	audit    bool
-	rec      *recdrv.Recorder
-	log      []hookCall
-	fired    bool
+	auditVia string // "" = tx.Exec, "session" = Create through a NewDB+SkipDefaultTransaction session of tx,
+	// "batches" = tx.CreateInBatches(3 rows, 2), "transaction" = tx.Transaction(func: 3 Creates): blocks of their own
+	audit     bool
+	auditFail string // "natural": the block of an After* hook repeats its first message in its last row (fails in its second part)
+	swallow   bool   // the hook tolerates a failed audit block (returns nil)
+	blocks    []blockCall
+	swallowed int
+	rec       *recdrv.Recorder
+	log       []hookCall
+	fired     bool
 }
+
+// blockCall is one write block (CreateInBatches / Transaction) issued by a hook.
+type blockCall struct {
+	hook int   // hook invocation index (its rows carry the prefix "h<hook>:")
+	err  error // what the block reported to the hook
+}
+
+const blockRows = 3
 
 // plan is the plan of the run in progress (nil while templates are built).
 var plan *hookPlan
@@ -189,14 +202,49 @@ func hook(tx *gorm.DB, model, name string) error {
 		return nil
 	}
 	if p.audit && model == "Owner" {
-		if p.auditVia == "session" {
+		tag := fmt.Sprintf("h%d:%s.%s", i, model, name)
+		switch p.auditVia {
+		case "session":
 			// a clean session of the handle the hook got, without a transaction
 			// of its own (the hook already runs inside the operation's)
-			if err := tx.Session(&gorm.Session{NewDB: true, SkipDefaultTransaction: true}).Create(&Audit{Msg: model + "." + name}).Error; err != nil {
+			if err := tx.Session(&gorm.Session{NewDB: true, SkipDefaultTransaction: true}).Create(&Audit{Msg: tag}).Error; err != nil {
 				return err
 			}
-		} else if err := tx.Exec("INSERT INTO audits (msg) VALUES (?)", model+"."+name).Error; err != nil {
-			return err
+		case "batches", "transaction":
+			// a write block of its own, nested in the operation's transaction: it
+			// is all-or-nothing by itself (SAVEPOINT), whatever the hook then
+			// does with its error
+			rows := make([]Audit, blockRows)
+			for j := range rows {
+				rows[j].Msg = fmt.Sprintf("%s#%d", tag, j+1)
+			}
+			if p.auditFail == "natural" && strings.HasPrefix(name, "After") {
+				rows[blockRows-1].Msg = rows[0].Msg
+			}
+			var err error
+			if p.auditVia == "batches" {
+				err = tx.CreateInBatches(&rows, 2).Error
+			} else {
+				err = tx.Transaction(func(tx2 *gorm.DB) error {
+					for j := range rows {
+						if e := tx2.Create(&rows[j]).Error; e != nil {
+							return e
+						}
+					}
+					return nil
+				})
+			}
+			p.blocks = append(p.blocks, blockCall{i, err})
+			if err != nil {
+				if !p.swallow {
+					return err
+				}
+				p.swallowed++
+			}
+		default:
+			if err := tx.Exec("INSERT INTO audits (msg) VALUES (?)", tag).Error; err != nil {
+				return err
+			}
 		}
 	}
 	return nil
@@ -433,7 +481,7 @@ type Op struct {
 	Kind        string      `json:"kind"`
 	NoReturning bool        `json:"noreturning,omitempty"` // dialector without RETURNING support
 	Audit       bool        `json:"audit,omitempty"`       // Owner hooks write an audit row through their handle
-	AuditVia    string      `json:"auditvia,omitempty"`    // "session": the audit row is created through tx.Session(NewDB+SkipDefaultTransaction)
+	AuditVia    string      `json:"auditvia,omitempty"`    // "session": the audit row is created through tx.Session(NewDB+SkipDefaultTransaction); "batches"/"transaction": a block of 3 rows through tx.CreateInBatches(…, 2) / tx.Transaction
 	Conflict    string      `json:"conflict,omitempty"`    // create kinds: Clauses(clause.OnConflict{...}): nothing | update-all | columns
 	Cols        []string    `json:"cols,omitempty"`        // create/save/updates: Select(cols)
 	Omit        []string    `json:"omit,omitempty"`        // create/save/updates: Omit(cols)
@@ -445,6 +493,8 @@ type Op struct {
 	Hist        []string    `json:"hist,omitempty"`        // writes made through the handle before the operation: prior-write | prior-failed-write
 	Plugin      bool        `json:"plugin,omitempty"`      // callbacks registered into the create/update/delete pipelines; they fail like hooks
 	CustomJoin  bool        `json:"customjoin,omitempty"`  // SetupJoinTable(Owner.Tags / Tag.Owners, &OwnerTag{}): join rows go through a model with hooks
+	AuditFail   string      `json:"auditfail,omitempty"`   // "natural": the audit block of every After* hook fails by itself in its second part (hooks swallow it)
+	Swallow     bool        `json:"swallow,omitempty"`     // hooks return nil when their audit block fails
 	Returning   bool        `json:"returning,omitempty"`   // update/delete/save with Clauses(clause.Returning{}): the main statement runs as a query
 	Pre         []PreStep   `json:"pre,omitempty"`         // sessions derived from the handle (and maybe used for a read) before the operation
 	Ctx         bool        `json:"ctx,omitempty"`         // run on db.WithContext(cancellable context); hooks may cancel it
@@ -1062,6 +1112,9 @@ type runResult struct {
 	nexts     []nextCall
 	events    []recdrv.Event
 	pre       string // tables right before the operation (after the generated history)
+	blocks    []blockCall
+	swallowed int
+	audits    []string // audits.msg after the operation
 	histErr   string
 	openTx    int
 	inUse     int
@@ -1106,7 +1159,7 @@ func runOnce(base *content, op Op, f fault) runResult {
 		}
 	}
 	d.Rec.Reset()
-	p := &hookPlan{failAt: -1, cancelAt: -1, audit: op.Audit, auditVia: op.AuditVia, rec: d.Rec}
+	p := &hookPlan{failAt: -1, cancelAt: -1, audit: op.Audit, auditVia: op.AuditVia, auditFail: op.AuditFail, swallow: op.Swallow, rec: d.Rec}
 	switch f.kind {
 	case "hook":
 		p.failAt = f.idx
@@ -1122,7 +1175,12 @@ func runOnce(base *content, op Op, f fault) runResult {
 	}
 	plan = p
 	if f.kind == "driver" {
-		d.Rec.SetFault(recdrv.FailNth(f.idx, f.err.err))
+		d.Rec.SetFault(func(idx int, e *recdrv.Event) error {
+			if idx == f.idx && !isRollback(*e) {
+				return f.err.err
+			}
+			return nil
+		})
 	} else {
 		d.Rec.SetFault(nil)
 	}
@@ -1150,6 +1208,7 @@ func runOnce(base *content, op Op, f fault) runResult {
 	r.faultable = d.Rec.Faultable()
 	r.events = d.Rec.Events()
 	r.hooks = p.log
+	r.blocks, r.swallowed = p.blocks, p.swallowed
 	d.Rec.SetFault(nil)
 	r.openTx = d.Rec.OpenTx()
 	r.inUse = d.SQL.Stats().InUse
@@ -1168,8 +1227,47 @@ func runOnce(base *content, op Op, f fault) runResult {
 		r.dumpErr = err
 	} else {
 		r.dump = c.text
+		for _, row := range c.rows["audits"] {
+			if len(row) > 1 {
+				r.audits = append(r.audits, fmt.Sprint(row[1]))
+			}
+		}
 	}
 	return r
+}
+
+// blockViolation checks the write blocks hooks issued: a block that reported
+// an error must have left none of its rows; one that reported success has all
+// of them if the operation was committed.
+func blockViolation(r runResult) string {
+	for _, b := range r.blocks {
+		prefix := fmt.Sprintf("h%d:", b.hook)
+		n := 0
+		for _, m := range r.audits {
+			if strings.HasPrefix(m, prefix) {
+				n++
+			}
+		}
+		switch {
+		case b.err != nil && n != 0:
+			return fmt.Sprintf("the write block issued by hook invocation #%d failed (%v) but %d of its %d rows are in the database: it was partly applied", b.hook, b.err, n, blockRows)
+		case b.err == nil && r.err == nil && n != blockRows:
+			return fmt.Sprintf("the write block issued by hook invocation #%d reported success and the operation was committed, but %d of its %d rows are in the database", b.hook, n, blockRows)
+		}
+	}
+	return ""
+}
+
+// withoutAudits cuts the audits table (the last one) off a dump.
+func withoutAudits(dump string) string {
+	if i := strings.Index(dump, "audits("); i >= 0 {
+		return dump[:i]
+	}
+	return dump
+}
+
+func isRollback(e recdrv.Event) bool {
+	return strings.HasPrefix(strings.ToUpper(strings.TrimSpace(e.Text)), "ROLLBACK")
 }
 
 func faultableEvents(ev []recdrv.Event) []recdrv.Event {
@@ -1263,6 +1361,9 @@ func checkCase(t fataler, c Case, base *content) {
 		}
 		t.Fatalf("harness: vacuous case, the fault-free operation changed nothing\n  case: %s", desc)
 	}
+	if msg := blockViolation(ref); msg != "" {
+		t.Fatalf("C05 violated: %s (fault-free run)\n  case: %s\n  driver calls:\n%s  audits: %v", msg, desc, eventLog(ref.events), ref.audits)
+	}
 	fe := faultableEvents(ref.events)
 	if len(fe) != ref.faultable {
 		t.Fatalf("harness: %d faultable events logged, recorder counted %d", len(fe), ref.faultable)
@@ -1299,8 +1400,28 @@ func checkCase(t fataler, c Case, base *content) {
 		if !r.fired {
 			t.Fatalf("harness: the planned fault was never reached (the operation is not deterministic)%s", where)
 		}
+		if msg := blockViolation(r); msg != "" {
+			t.Fatalf("C05 violated: %s%s\n  audits: %v", msg, where, r.audits)
+		}
+		if r.swallowed > 0 && r.err == nil {
+			// the failure hit a write block of a hook that tolerates it: the block
+			// left nothing (checked above), the operation itself completes
+			if r.openTx != 0 || r.inUse != 0 {
+				t.Fatalf("C05 violated: after the operation %d transaction(s) still open, %d connection(s) still checked out%s", r.openTx, r.inUse, where)
+			}
+			if r.dumpErr != nil {
+				t.Fatalf("C05 violated: tables unreadable after the operation: %v%s", r.dumpErr, where)
+			}
+			if withoutAudits(r.dump) != withoutAudits(ref.dump) {
+				t.Fatalf("C05 violated: a hook tolerated the failure of its own write block, the operation reported success but was not applied completely%s\n  tables of the fault-free run:\n%s  tables after:\n%s", where, indent(ref.dump), indent(r.dump))
+			}
+			return
+		}
 		if r.err == nil {
 			t.Fatalf("C05 violated: a failing step was not reported: result.Error is nil (RowsAffected %d)%s", r.rows, where)
+		}
+		if r.swallowed > 0 {
+			injected = r.err // swallowed inside a hook and still failed later: only "reported, nothing applied" is required
 		}
 		if !errors.Is(r.err, injected) {
 			t.Fatalf("C05 violated: result.Error does not wrap the injected failure: %q%s", r.err.Error(), where)
@@ -1319,6 +1440,12 @@ func checkCase(t fataler, c Case, base *content) {
 	for k := 0; k < N && familyOn("driver"); k++ {
 		// the value the failing call returns rotates over the positions; a
 		// COMMIT is tried with every value
+		if isRollback(fe[k]) {
+			// ROLLBACK TO SAVEPOINT (after a hook's write block failed by itself):
+			// faults are never injected into a rollback (DESIGN.md 2.3)
+			evid.Excluded("fault-position-is-a-rollback")
+			continue
+		}
 		vals := []namedErr{faultErrors[(k+op.Rot)%len(faultErrors)]}
 		if labels[k] == "commit" {
 			vals = append(append([]namedErr(nil), faultErrors...), commitOnlyErrors...)
@@ -1369,6 +1496,9 @@ func checkCase(t fataler, c Case, base *content) {
 		if r.dumpErr != nil {
 			t.Fatalf("C05 violated: tables unreadable after the operation whose context was cancelled: %v%s", r.dumpErr, where)
 		}
+		if msg := blockViolation(r); msg != "" {
+			t.Fatalf("C05 violated: %s%s\n  audits: %v", msg, where, r.audits)
+		}
 		switch {
 		case r.err == nil && r.dump == ref.dump:
 			// completed in spite of the cancellation: allowed
@@ -1399,8 +1529,19 @@ func opShapes(op Op, multi bool) []string {
 	if op.Ctx {
 		shape["handle:with-context"] = true
 	}
-	if op.AuditVia != "" {
+	switch op.AuditVia {
+	case "session":
 		shape["hooks:audit-via-derived-session"] = true
+	case "batches", "transaction":
+		shape["hooks:audit-block:"+op.AuditVia] = true
+		if op.Swallow {
+			shape["hooks:audit-block-error-swallowed"] = true
+		} else {
+			shape["hooks:audit-block-error-returned"] = true
+		}
+		if op.AuditFail != "" {
+			shape["hooks:audit-block-fails-by-itself"] = true
+		}
 	}
 	if op.CustomJoin {
 		shape["join:custom-model-with-hooks"] = true
@@ -1811,8 +1952,14 @@ func drawCase(t *rapid.T) (Case, *content) {
 	op := Op{Kind: kind}
 	op.NoReturning = rapid.IntRange(0, 3).Draw(t, "no-returning") == 0
 	op.Audit = rapid.IntRange(0, 3).Draw(t, "audit") == 0
-	if op.Audit && rapid.Bool().Draw(t, "audit-via-session") {
-		op.AuditVia = "session"
+	if op.Audit {
+		op.AuditVia = rapid.SampledFrom([]string{"", "session", "batches", "transaction"}).Draw(t, "audit-via")
+		if op.AuditVia == "batches" || op.AuditVia == "transaction" {
+			op.Swallow = rapid.Bool().Draw(t, "audit-swallow")
+			if op.Swallow && rapid.Bool().Draw(t, "audit-block-fails") {
+				op.AuditFail = "natural"
+			}
+		}
 	}
 	op.Ctx = rapid.IntRange(0, 2).Draw(t, "with-context") == 0
 	op.CustomJoin = rapid.IntRange(0, 3).Draw(t, "custom-join") == 0
@@ -1869,7 +2016,7 @@ func drawCase(t *rapid.T) (Case, *content) {
 		for i := 0; i < n; i++ {
 			op.Owners = append(op.Owners, OwnerSpec{ID: ids.owners.draw(t, "owner-id", existingOK, true), Name: "ow-" + nameGen.Draw(t, "owner-name"), Val: rapid.IntRange(1, 9).Draw(t, "val")})
 		}
-		op.Audit, op.AuditVia = false, ""
+		op.Audit, op.AuditVia, op.Swallow, op.AuditFail = false, "", false, ""
 		if op.Form == "maps" {
 			// Create of a non-pointer []map fails by itself on a dialect with
 			// RETURNING (gorm.Scan has no arm for that destination: "unsupported
@@ -1902,7 +2049,7 @@ func drawCase(t *rapid.T) (Case, *content) {
 		// key set, no such row, no associations, hooks do not write: Save's
 		// UPDATE matches nothing (and changes nothing), then the insert fallback
 		// runs as a second pipeline
-		op.Audit, op.AuditVia = false, ""
+		op.Audit, op.AuditVia, op.Swallow, op.AuditFail = false, "", false, ""
 		op.Owners = []OwnerSpec{{ID: 900, Name: "ow-" + nameGen.Draw(t, "owner-name"), Val: rapid.IntRange(1, 9).Draw(t, "val")}}
 	case kSaveSlice:
 		n := rapid.IntRange(1, 3).Draw(t, "owners")
@@ -2004,6 +2151,7 @@ const rule = "C05: rapid draws an initial database (0-3 owner graphs, loose comp
 	"clauses (OnConflict DoNothing/UpdateAll/column list, Select/Omit of columns, associations, nested paths and Tags.*), options (CreateBatchSize and FullSaveAssociations through Session or Config, PrepareStmt, TranslateError), " +
 	"type shapes (belongs-to by value, has-many of pointers, polymorphic has-one by value, many2many back-reference cycle, SetupJoinTable join model with hooks, >10 children), " +
 	"handle histories (derived sessions, a prior successful / failed write through the handle, db.Connection, CreateInBatches inside db.Transaction = SAVEPOINT) and plugin callbacks registered inside the pipelines failing like hooks. " +
+	"Audit-writing hooks write one row (tx.Exec / derived session) or a block of 3 rows through tx.CreateInBatches(rows, 2) / tx.Transaction(func); a block may fail by itself in its second part (repeated unique message) or by an injected fault, and the hook returns or swallows its error: a failed block leaves none of its rows, and with the error swallowed the operation applies completely. " +
 	"One evaluation = one faulted run. Non-trivial = the operation writes >=2 tables and the fault lands after the first write statement succeeded. " +
 	"Distinct = initial content + operation + record graph + fault position."
 
@@ -2014,6 +2162,10 @@ func TestC05(t *testing.T) {
 		c, base := drawCase(rt)
 		if saveFallbackWrites(c, base) && harness.OpenClass("C05", classSaveFallback) {
 			evid.Excluded(classSaveFallback)
+			return
+		}
+		if hookBlockInAssociationSave(c) && harness.OpenClass("C05", classHookBlockAssoc) {
+			evid.Excluded(classHookBlockAssoc)
 			return
 		}
 		evid.Journal(c.String())
@@ -2047,6 +2199,55 @@ func saveFallbackWrites(c Case, base *content) bool {
 	sh := map[string]bool{}
 	o.shapes(sh)
 	return len(sh) > 0 || c.Op.Audit
+}
+
+// classHookBlockAssoc: a hook of a record that is being saved as an ASSOCIATION
+// issues a write block of its own through its handle (tx.CreateInBatches with
+// more than one batch, or tx.Transaction(func)). saveAssociations builds the
+// nested Create with Session{DisableNestedTransaction: true}; callMethod
+// derives the hook's handle from it, so the block gets no SAVEPOINT: when its
+// second part fails, its first part stays in the operation's transaction and
+// is committed with it if the hook tolerates the error. (Hooks of the root
+// record do get the SAVEPOINT.) In this generator only Owner hooks write
+// blocks, and an Owner is saved as an association only through the many2many
+// back-reference Tag.Owners.
+const classHookBlockAssoc = "hook-write-block-in-association-save"
+
+func hookBlockInAssociationSave(c Case) bool {
+	if !c.Op.Audit || (c.Op.AuditVia != "batches" && c.Op.AuditVia != "transaction") {
+		return false
+	}
+	switch c.Op.Kind {
+	case kCreate, kCreateSlice, kCreateBatches, kSave, kSaveSlice, kUpdatesFull, kUpdatesMap:
+	default:
+		return false
+	}
+	for _, o := range c.Op.Owners {
+		for _, tg := range o.Tags {
+			if tg.BackRef {
+				return true
+			}
+		}
+	}
+	return false
+}
+
+// TestC05WitnessHookBlockInAssociationSave: Create(&Owner{Tags: [tag pointing
+// back at the owner]}); the Owner hooks write 3 audit rows through
+// tx.Transaction / tx.CreateInBatches(rows, 2), the block of every After* hook
+// fails in its second part (repeated unique message) and the hook swallows the
+// error. It fails while the defect exists: the rows of the first part written
+// by the hooks that ran during the association save are committed.
+func TestC05WitnessHookBlockInAssociationSave(t *testing.T) {
+	for _, via := range []string{"transaction", "batches"} {
+		c := Case{Op: Op{Kind: kCreate, Audit: true, AuditVia: via, AuditFail: "natural", Swallow: true,
+			Owners: []OwnerSpec{{Name: "ow-a", Val: 1, Tags: []TagSpec{{Name: "tg-a", BackRef: true}}}}}}
+		base, err := materialize(c.Init)
+		if err != nil {
+			t.Fatalf("harness: %v", err)
+		}
+		checkCase(t, c, base)
+	}
 }
 
 // TestC05WitnessSaveFallback asserts the property on the smallest such input:
